@@ -66,6 +66,27 @@ def wrong(r, v):
     return v
 
 
+def conf_change_cases(r, thorough):
+    """configured strings + a command that replaces one description + read-back by ISO request (also used by the C08 check)"""
+    cases = []
+    # E3. the application configured its strings (SetProgmemConfigurationInformation / SetConfigurationInformation, descriptions not
+    #     empty); a command replaces ONE description: the other one and the manufacturer information must still be reported
+    def ctext(n):
+        return bytes(r.choice(b'ABCDEFGHIJKLMNOPQRSTUVWXYZabcdefghijklmnopqrstuvwxyz0123456789 .-') for _ in range(n))
+    for rep in range(6 if not thorough else 60):
+        la, lb, lm = r.choice([(5, 9, 12), (18, 1, 30), (70, 70, 60), (1, 70, 3), (33, 34, 35)])
+        key = r.choice(['pconf', 'pconf', 'conf'])
+        cfg = node(extra=' %s=%s,%s,%s' % (key, ctext(la).hex(), ctext(lb).hex(), ctext(lm).hex()))
+        blocks = [['M', iso_request(51, 22, 126998), 'P', 'T 3', 'P']]
+        for _k in range(r.choice([1, 2, 3])):
+            f = r.choice([1, 2])
+            blocks.append(block(r, r.choice(['fp', 'tp']), 50, 22, gf_command(126998, 8, [(f, varstr(ctext(r.choice([0, 1, 20, 69, 70]))))])))
+            blocks.append(['M', iso_request(51, 22, 126998), 'P', 'T 3', 'P'])
+        blocks.append(block(r, 'fp', 52, 22, gf_request(126998)))
+        cases.append(case(cfg, ops_of(blocks)))
+    return cases
+
+
 def gen(seed, tier):
     r = random.Random(seed * 7919 + 9)
     thorough = tier != 'quick'
@@ -205,6 +226,7 @@ def gen(seed, tier):
             blocks.append(block(r, r.choice(['fp', 'tp']), 50, 22, gf_command(126998, 8, [(f, varstr(txt.encode('utf-16-le'), typ=0))])))
             blocks.append(['M', iso_request(51, 22, 126998), 'P', 'T 3', 'P'])
         cases.append(case(cfg1, ops_of(blocks)))
+    cases += conf_change_cases(r, thorough)
     # heartbeat: request then the periodic heartbeat states the interval
     for iv, off in [(1000, 0xffff), (5000, 100), (60000, 6000), (0xfffffffe, 0), (2500, 0)] + ([(r.randrange(1000, 60001), r.choice([0, 0xffff, r.randrange(6001)])) for _ in range(20)] if thorough else []):
         cases.append(case(node(extra=' hb=1'), ops_of([block(r, 'fp', 50, 22, gf_request(126993, iv, off), wait=False)]) + ['T %d' % (min(iv, 60000) + 7000), 'P', 'T %d' % min(iv, 60000), 'P']))
@@ -571,6 +593,9 @@ def oracle(case, res):
     ndev, src0, mode = cfg['ndev'], cfg['src'], cfg['mode']
     own = [own_addr(src0, i) for i in range(ndev)]
     st = fresh_state(ndev, bool(cfg.get('noconf')))
+    if cfg.get('pconf') or cfg.get('conf'):          # configuration strings set by the application (installation descriptions 1, 2, manufacturer information)
+        a, b, m = [bytes.fromhex(x)[:70] if x != '-' else b'' for x in (cfg.get('pconf') or cfg.get('conf')).split(',')]
+        st['d1'], st['d2'], st['manuf'] = a, b, m
     tainted = set()
     soft = []                      # failures that are listed known findings: recorded, the implementation's behaviour is adopted, checking goes on
     alts = []                      # reference states in which a refused command has been applied after all
